@@ -138,7 +138,7 @@ Init == sc \in UNION {{[id |-> id, data |-> d, sd |-> sd, sdw |-> sw, dsd |-> x]
 SDR(s) == [base |-> s.sd, extra |-> s.dsd]
 Compute == /\ ~done /\ done' = TRUE /\ UNCHANGED sc
            /\ \E ly \in {LyapV(sc.id, sc.sd)} : \E Cs \in {CTable(ly)} : \E TP \in {[k \in 0..TK |-> RMatPow(GModel(sc.id).T, k)]} :
-                out' = [ok |-> ly.ok /\ LyapOk(ly), src |-> Source(GModel(sc.id)),
+                out' = [ok |-> ly.ok /\ LyapOk(ly), src |-> Source(GModel(sc.id)), srcb |-> SourceB(GModel(sc.id)),
                         vars |-> GModel(sc.id).vars, mvars |-> GModel(sc.id).mvars, shocks |-> GModel(sc.id).shocks, mshocks |-> GModel(sc.id).mshocks,
                         predict |-> [t \in 1..TK |-> Moments(sc.id, Cs, TP, SDR(sc), sc.sdw, sc.data, t - 1, t)],
                         update  |-> [t \in 1..TK |-> Moments(sc.id, Cs, TP, SDR(sc), sc.sdw, sc.data, t, t)],
